@@ -428,6 +428,7 @@ class ViEd(Vi):
         Vi.__init__(self, lines, rows, tables)
         self.regs = Regs()
         self.msg = None
+        self.ai = False
 
     # ---- helpers
     def region_text(self, r1, o1, r2, o2):
@@ -511,7 +512,12 @@ class ViEd(Vi):
         if op == "c":
             self.regs.put(reg, self.region_text(r1, 0 if lnmode else o1, r2, -1 if lnmode else o2), 1 if lnmode else 0)
             f1, f2 = self.full(r1), self.full(r2)
-            pref = "" if lnmode else (f1 or "")[:o1]
+            if lnmode:
+                pref = ""
+                if self.ai and f1 is not None:
+                    pref = f1[:len(f1) - len(f1.lstrip(" \t"))]
+            else:
+                pref = (f1 or "")[:o1]
             post = "\n" if (lnmode or f2 is None) else f2[o2:]
             self.row = r1
             self.do_input(pref, post, typed or "", r1, r2 + 1)
@@ -562,22 +568,75 @@ class ViEd(Vi):
 
     # ---- insert-mode text
     def do_input(self, pref, post, typed, beg, end):
-        """replace lines [beg, end) by pref + typed + post as the insert-mode line editor builds it (noautoindent)"""
-        tl = typed_lines(typed)
-        ai = ""
+        """replace lines [beg, end) by what the insert-mode line editor builds from pref + typed keys + post.
+        Autoindent (self.ai): the leading blanks of pref (for o/O: of the current line) are carried to every new line that has
+        other characters; ^T adds a tab to that indentation, ^D removes its last character (or, with no indentation and no
+        prefix, the first blank typed on the line); blanks typed at the start of a line extend it."""
         k = 0
         while k < len(pref) and pref[k] in " \t":
             k += 1
         ai, pref = pref[:k], pref[k:]
-        first = tl[0]
-        sp = 0
-        while sp < len(first) and first[sp] in " \t":
-            sp += 1
-        single = len(tl) == 1
-        cond = sp < len(first) or pref != "" or (single and post[:1] not in ("", "\n"))
-        out = (ai if cond else "") + pref + first
-        for t in tl[1:]:
-            out += "\n" + t
+        out = ""
+        cur = ""                # text typed on the current line
+        first = True
+        i = 0
+        keys = typed
+        n_keys = len(keys)
+
+        def commit(cur, ai, pref, last, post):
+            sp = 0
+            while sp < len(cur) and cur[sp] in " \t":
+                sp += 1
+            cond = sp < len(cur) or pref != "" or (last and post[:1] not in ("", "\n"))
+            line = (ai if cond else "") + pref + cur
+            return line, sp
+        while i <= n_keys:
+            ch = keys[i] if i < n_keys else None
+            if ch is None or ch == "\n":
+                last = ch is None
+                line, sp = commit(cur, ai, pref if first else "", last, post)
+                out += line
+                if not last:
+                    out += "\n"
+                if first and pref == "" or not first:
+                    ai = ai + cur[:sp]          # blanks typed at the start of the line extend the indentation
+                if not self.ai:
+                    ai = ""
+                if last:
+                    break
+                first = False
+                cur = ""
+                if self.ai:
+                    post = post.lstrip(" \t") if post not in ("",) else post
+            elif ch in ("\x08", "\x7f"):
+                cur = cur[:-1]
+            elif ch == "\x15":
+                cur = ""
+            elif ch == "\x17":
+                j = len(cur)
+                while j > 0 and isspace(cur[j - 1]):
+                    j -= 1
+                if j > 0:
+                    kk = kind(cur[j - 1])
+                    j -= 1
+                    while j > 0 and kind(cur[j - 1]) == kk:
+                        j -= 1
+                cur = cur[:j]
+            elif ch == "\x14":          # ^T
+                if len(ai) < 127:
+                    ai += "\t"
+            elif ch == "\x04":          # ^D
+                if ai == "" and (pref if first else "") == "":
+                    if cur[:1] in (" ", "\t"):
+                        cur = cur[1:]
+                if ai:
+                    ai = ai[:-1]
+            elif ch == "\x16" and i + 1 < n_keys:
+                cur += keys[i + 1]
+                i += 1
+            else:
+                cur += ch
+            i += 1
         last_before_post = out.split("\n")[-1]
         out += post
         n_lines = out.count("\n")
@@ -611,7 +670,10 @@ class ViEd(Vi):
             if n == 0:
                 self.ln.insert(0, "")          # CAL: o/O on an empty buffer first create an empty line
             beg = self.row + 1 if cmd == "o" else self.row
-            self.do_input("", "\n", typed, beg, beg)
+            ind = ""
+            if self.ai and f is not None:
+                ind = f[:len(f) - len(f.lstrip(" \t"))]
+            self.do_input(ind, "\n", typed, beg, beg)
         else:
             pref = f[:off] if f is not None else ""
             post = f[off:] if f is not None else "\n"
